@@ -48,6 +48,10 @@ pub enum Case {
     order: Vec<u8>,
     escape_style: u8,
     spaces: bool,
+    /// bit k set and array k (sources, sourcesContent, names) absent: the key is written with the value
+    /// `null` instead of being left out
+    #[serde(default)]
+    null_arrays: u8,
   },
 }
 
@@ -107,9 +111,9 @@ fn doc_strategy() -> BoxedStrategy<Case> {
   (
     (mappings_string(), proptest::option::weighted(0.8, vec(entry(), 0..=3)), proptest::option::weighted(0.7, vec(entry(), 0..=3)), proptest::option::weighted(0.8, vec(entry(), 0..=3))),
     (proptest::option::of(entry()), proptest::option::of(entry()), proptest::option::of(entry())),
-    (proptest::option::of(0u8..5u8), any::<bool>(), vec(any::<u8>(), 9), 0u8..4u8, any::<bool>()),
+    (proptest::option::of(0u8..5u8), any::<bool>(), vec(any::<u8>(), 9), 0u8..4u8, any::<bool>(), prop_oneof![3 => Just(0u8), 1 => 0u8..8u8]),
   )
-    .prop_map(|((mappings, sources, contents, names), (file, root, debug_id), (version, extra_key, order, escape_style, spaces))| Case::Doc {
+    .prop_map(|((mappings, sources, contents, names), (file, root, debug_id), (version, extra_key, order, escape_style, spaces, null_arrays))| Case::Doc {
       mappings,
       sources,
       contents,
@@ -122,6 +126,7 @@ fn doc_strategy() -> BoxedStrategy<Case> {
       order,
       escape_style,
       spaces,
+      null_arrays,
     })
     .boxed()
 }
@@ -228,7 +233,7 @@ impl Prop for C15 {
   fn rule(&self) -> String {
     "leg 1: SourceMap values whose strings are built from quotes, backslashes, control characters, U+2028/2029, DEL, BOM, \
      astral characters, '</script>' and the empty string, every optional field present or absent, sourcesContent absent / \
-     all-empty / mixed; leg 1b: large values (one field of 4 KiB - 1 MiB, sizes within +-40 bytes of a power of two); leg 2: documents written by the harness's own JSON writer with keys in random order, null entries, \
+     all-empty / mixed; leg 1b: large values (one field of 4 KiB - 1 MiB, sizes within +-40 bytes of a power of two); leg 2: documents written by the harness's own JSON writer with keys in random order, null entries, null in place of a whole array (read like a missing one), \
      missing arrays, four escaping styles (incl. \\uXXXX surrogate pairs), unknown extra keys, any version. Oracle: \
      serde_json (independent of simd-json) as reference parser. Non-trivial: a string that needs an escape, or (leg 2) a \
      null entry / missing array; distinct by hash of the case JSON".into()
@@ -268,7 +273,7 @@ impl Prop for C15 {
           let r = check_value(&f)?;
           Ok(CaseInfo::nt(true).class(true, "large value").class(r.nontrivial, "large value with escapes"))
         }
-        Case::Doc { mappings, sources, contents, names, file, root, debug_id, version, extra_key, order, escape_style, spaces } => {
+        Case::Doc { mappings, sources, contents, names, file, root, debug_id, version, extra_key, order, escape_style, spaces, null_arrays } => {
           // assemble key/value pairs
           let mut kv: Vec<(String, String)> = vec![];
           let style = *escape_style;
@@ -285,14 +290,16 @@ impl Prop for C15 {
           let mut ms = String::new();
           write_json_string(&mut ms, mappings, style);
           kv.push(("mappings".into(), ms));
-          if let Some(v) = sources {
-            kv.push(("sources".into(), a(v)));
-          }
-          if let Some(v) = contents {
-            kv.push(("sourcesContent".into(), a(v)));
-          }
-          if let Some(v) = names {
-            kv.push(("names".into(), a(v)));
+          let mut null_array = false;
+          for (k, (key, v)) in [("sources", sources), ("sourcesContent", contents), ("names", names)].into_iter().enumerate() {
+            match v {
+              Some(v) => kv.push((key.into(), a(v))),
+              None if null_arrays & (1 << k) != 0 => {
+                null_array = true;
+                kv.push((key.into(), "null".into()));
+              }
+              None => {}
+            }
           }
           if let Some(e) = file {
             kv.push(("file".into(), s(e)));
@@ -368,6 +375,7 @@ impl Prop for C15 {
             CaseInfo::nt(has_null || missing || needs_escape(mappings))
               .class(has_null, "null entry in an array")
               .class(missing, "missing array")
+              .class(null_array, "null in place of a whole array")
               .class(matches!(file, Some(Entry::Null)) || matches!(root, Some(Entry::Null)) || matches!(debug_id, Some(Entry::Null)), "null optional string")
               .class(*extra_key, "unknown extra key")
               .class(style > 0, "\\uXXXX escapes"),
